@@ -1166,11 +1166,14 @@ func hiddenZeroElements(g *Gen, o *Out) {
 				if strings.HasPrefix(ans, "E") {
 					kept += "E;"
 				} else {
-					kept += fmt.Sprint(strings.Count(ans, "main.HiddenHolder (")) + ";"
+					kept += fmt.Sprint(strings.Count(ans, "( T main.HiddenHolder")) + ";"
 				}
 			}
 			o.meta.Cases++
 			o.count("zero-elements:" + kept)
+			if ex == `Vis != 5` && kept != "3;2;2;" {
+				o.finding(Finding{Property: "C08", Kind: "failing-input", What: "a filter that every element passes keeps " + kept + " elements of (slice;map;array) of sizes 3;2;2", Request: "filter " + hx(ex) + " " + serAny([]HiddenHolder{{Vis: 1}, hv, {Vis: 2}}) + " ( re )", Detail: ex})
+			}
 			if j == 0 {
 				first = kept
 			} else if kept != first {
